@@ -29,12 +29,46 @@ def stageable(name="dev"):
     """an abstract Stageable device: stage() / unstage() return the list of staged devices and never fail"""
     return Opaque(name, {"token": "dev", "truth": True, "isinstance_default": False, "isinstance": {"Stageable": True},
                          "hasattr": {"pause": False, "resume": False, "stop": False, "name": True}, "attrs": {"name": name, "parent": None},
-                         "methods": {"stage": lambda I_, o, a, k: [o], "unstage": lambda I_, o, a, k: [o]}})
+                         "methods": {"stage": lambda I_, o, a, k: (_report("dev-stage", o), [o])[1],
+                                     "unstage": lambda I_, o, a, k: (_report("dev-unstage", o), [o])[1]}})
 
 
 DEV = stageable()
 ALPHABET["stage"] = msg("stage", DEV)          # implicit checkpoints
 ALPHABET["unstage"] = msg("unstage", DEV)
+
+# device-call ledger (C06 / C11): the engine's current world registers itself here; devices report their calls to it
+LEDGER = {"event": None}
+
+
+def _report(kind, dev):
+    ev = LEDGER["event"]
+    if ev is not None:
+        ev(kind, dev)
+
+
+def movable(name="mot"):
+    """an abstract Movable + Stoppable device: set() returns an opaque status, stop() is recorded"""
+    def set_(I_, o, a, k):
+        _report("dev-set", o)
+        return Opaque(I_.w.fresh("status"), {"token": "status", "truth": True, "isinstance_default": False, "hasattr": {},
+                                             "methods": {"add_callback": lambda I2, o2, a2, k2: None}})
+
+    def stop(I_, o, a, k):
+        _report("dev-stop", o)
+        return None
+    return Opaque(name, {"token": "dev", "truth": True, "isinstance_default": False, "isinstance": {"Movable": True, "Stoppable": True},
+                         "hasattr": {"pause": False, "resume": False, "stop": True, "name": True}, "attrs": {"name": name, "parent": None},
+                         "methods": {"set": set_, "stop": stop}})
+
+
+MOT = movable()
+ALPHABET["set"] = msg("set", MOT, 1)
+
+
+def _none():
+    return None
+    yield
 
 
 REQUEST_COROS = {"_request_pause_coro", "_abort_coro", "_stop_coro", "_halt_coro", "_request_suspend"}
@@ -42,14 +76,21 @@ REQUEST_COROS = {"_request_pause_coro", "_abort_coro", "_stop_coro", "_halt_coro
 
 class Scenario:
     def __init__(self, I, plan_msgs, env=(), post_pause=("resume", "abort", "stop", "halt"), max_requests=None, handles=True,
-                 can_raise=True, engine_kw=None, max_inflight=1, max_depth=2, second_call=None, max_runs=2):
+                 can_raise=True, engine_kw=None, max_inflight=1, max_depth=2, second_call=None, max_runs=2, suspend_plans=False, re_attrs=None):
         self.max_depth = max_depth
+        self.re_attrs = dict(re_attrs or {})
+        self.suspend_plans = suspend_plans
+        self.pre_plans, self.post_plans = [], []
+        # A-STATUS: status objects of 'set' are not followed in these scenarios (no 'wait' in the alphabets): registering them is a no-op
+        I.call_hooks[f"{RE}._add_status_to_group"] = lambda I_, f, a, k: _none()
         self.second_call = second_call
         self.returns_result = bool((engine_kw or {}).get("call_returns_result"))
         self.I, self.w = I, I.w
         w = I.w
         self.eng = eng = Engine(I, **(engine_kw or {}))
         self.re = eng.re
+        for k_, v_ in self.re_attrs.items():
+            I.setattr(self.re, k_, v_)         # public configuration attributes (e.g. record_interruptions)
         self.loop = eng.loop
         self.env_kinds = tuple(env)
         self.post_pause = tuple(post_pause)
@@ -61,6 +102,7 @@ class Scenario:
         self.release = None             # the suspender's condition (asyncio.Event set by the environment)
         eng.ghost["key"] = self.ghost_key = {}
         self.loop.env_menu = self.env_menu
+        LEDGER["event"] = eng.event
         self.loop.on_outcome_lost = lambda task, tok: eng.event("outcome-lost", getattr(getattr(task, "woken_by", None), "msg", None), tok)
 
         def custom(I_, a, k):
@@ -158,9 +200,21 @@ class Scenario:
 
     def do_suspend(self):
         I = self.I
-        if self.release is None or self.release.value:
+        fresh = self.release is None or self.release.value
+        if fresh:
             self.release = aio.AEvent(self.loop, "release")
-        call_method(I, self.re, "request_suspend", I.getattr(self.release.facade, "wait"))
+        self.eng.event("suspend-requested", fresh)
+        if not self.suspend_plans:
+            call_method(I, self.re, "request_suspend", I.getattr(self.release.facade, "wait"))
+            return
+        # the suspender's pre / post plans: arbitrary short plans of harmless messages
+        n = len(self.pre_plans)
+        pre = Plan(self.eng, f"pre{n}", lambda p: [("null", ALPHABET["null"])], handles=False, can_raise=False, max_len=1)
+        post = Plan(self.eng, f"post{n}", lambda p: [("null", ALPHABET["null"])], handles=False, can_raise=False, max_len=1)
+        pre.canon_name, post.canon_name = "pre", "post"
+        self.pre_plans.append(pre)
+        self.post_plans.append(post)
+        call_method(I, self.re, "request_suspend", I.getattr(self.release.facade, "wait"), pre_plan=pre, post_plan=post, justification="beam dump")
 
     def complete(self, f, ok):
         w = self.w
